@@ -96,6 +96,7 @@ type zzMon struct {
 	mwSeen     []any
 	prop       int
 	pillSeen   bool
+	onUser     func(seq int) // called before a user message is recorded
 }
 
 func (m *zzMon) crash(what string) {
@@ -140,6 +141,9 @@ func (a *zzActor) Receive(c *Context) {
 	case Stopped:
 		m.recs = append(m.recs, zzRec{inc: a.inc, kind: zzKStopped})
 	case zzUser:
+		if m.onUser != nil {
+			m.onUser(msg.Seq)
+		}
 		m.recs = append(m.recs, zzRec{inc: a.inc, kind: zzKUser, seq: msg.Seq, payload: msg.Payload, sender: c.Sender()})
 		if msg.Crash {
 			m.recs[len(m.recs)-1].crashed = true
